@@ -1,18 +1,18 @@
 CONSTANTS
   Sides = {"client", "server"}
-  MaxSid = 5
-  MaxFrames = 16
-  MinFrames = 11
-  Names = {"a", "b"}
+  MaxSid = 3
+  MaxFrames = 9
+  MinFrames = 6
+  Names = {"a"}
   BodyPlans <- PlansFull
   DataCuts = {2, 5, 6, 9}
-  Conts = {0, 1, 2}
+  Conts = {0}
   MaxOther = 2
   MaxGoAway = 2
-  AllowUnnamed = TRUE
+  AllowUnnamed = FALSE
   AllowReqTrailers = TRUE
-  AllowClientGoAway = TRUE
-  AllowTimer = FALSE
+  AllowClientGoAway = FALSE
+  AllowTimer = TRUE
   AllowEarlyEnd = TRUE
   MaxCall = 7
   FrameAligned = FALSE
